@@ -305,7 +305,7 @@ theorem cup_accepted_all (hx : XtermLike rc.ti = true) (ff : Bool) (x y : Nat)
 
 example : SizeOk 80 24 := by unfold SizeOk TParm.maxInt64; omega
 example : Good rwClip (Term.init { w := 80, h := 24, rw := rwClip }) := ⟨rfl, rfl, rfl, rfl, rfl, rfl, rfl, rfl⟩
-example : OpB { rw := rwClip, payload := fun m comb => Utf8.encode m ++ comb.flatMap Utf8.encode, hasHide := true, cornerTrick := false }
+example : OpB { rw := rwClip, payload := fun m comb => Utf8.encode m ++ comb.flatMap Utf8.encode, hasHide := true, cornerTrick := false, guardLocked := false }
     (.setContent 2 0 0x61 [0x301] {}) := ⟨by
       intro k hk; simp only [List.mem_singleton] at hk; subst hk
       exact ⟨by decide +kernel, by decide, by decide⟩, rfl⟩
